@@ -1,17 +1,331 @@
 ------------------------------ MODULE TraceRx ------------------------------
-EXTENDS Integers, FiniteSets, Sequences, TLC, Json, IOUtils, GseSender
+(***************************************************************************)
+(* Receiver half of the trace specification: decap / peek / provision /    *)
+(* reset / drain events judged against the receiver relations.             *)
+(*                                                                         *)
+(* Abstract receiver state tracked from the trace:                         *)
+(*  adm   : set of values the remembered label may have according to the   *)
+(*          property text (subset construction; NoLabel = "cannot resolve")*)
+(*  mem   : the last projection of the real memory (free tags, contexts)   *)
+(*  prov  : buffer tags (= unique lengths) ever handed to the decapsulator *)
+(*  owned : tags currently in the caller's hands                           *)
+(*  ghost : per fragment id, the C03 ghost: most recent first fragment     *)
+(*          answered "fragmented" and the payloads arrived since           *)
+(*  lock / pend / sess : lock-step with the sender (C01 C02 C04)           *)
+(***************************************************************************)
+EXTENDS TraceBase
 
-Rec  == ndJsonDeserialize(IOEnv.TRACE)
-Pdus == ndJsonDeserialize(IOEnv.PDUS)
-PduBytes(i) == Pdus[i].bytes
-PduLen(i)   == Pdus[i].len
+MgrOf(list) ==
+  [id \in {list[i].id : i \in 1..Len(list)} |->
+     LET i == CHOOSE j \in 1..Len(list) : list[j].id = id
+     IN  [final |-> list[i].final, size |-> list[i].size]]
 
-V(cond, props, name) == IF cond THEN {} ELSE {[props |-> props, c |-> name]}
-H(cond, name) == IF cond THEN {name} ELSE {}
+EmptyMem == [ok |-> TRUE, free |-> <<>>, ctxs |-> <<>>]
+NoFirst  == [label |-> NoLabel, lt |-> "ru", lb |-> <<>>, ptype |-> 0, tl |-> 0, exts |-> <<>>]
+NoGhost  == [open |-> FALSE, done |-> FALSE, first |-> NoFirst, arrived |-> <<>>]
+NoPend   == [valid |-> FALSE, wire |-> <<>>, kind |-> "none", id |-> 0, pdu |-> 0,
+             intended |-> NoLabel, ptype |-> 0, exts |-> <<>>]
+NoSess   == [pdu |-> 0, intended |-> NoLabel, ptype |-> 0, exts |-> <<>>]
 
-RxInit == [x |-> 0]
-RxBegin(e) == RxInit
-RxAfterTx(rx, e) == rx
-RxCrcFor(e, rx, tab) == [need |-> FALSE, key |-> <<>>, val |-> ZeroCrc, new |-> FALSE]
-RxStep(e, rx, tx, crc) == [bad |-> {}, hits |-> {}, cls |-> <<"other", e.ev>>, rx |-> rx]
+RxInit ==
+  [ mgr |-> NoMgr, slots |-> 0, adm |-> {NoLabel}, mem |-> EmptyMem, prov |-> {}, owned |-> {},
+    ghost |-> [i \in {} |-> NoGhost], lock |-> FALSE, pend |-> NoPend, sess |-> [i \in {} |-> NoSess] ]
+
+RxBegin(e) ==
+  [ RxInit EXCEPT !.mgr = IF Has(e, "rx") THEN MgrOf(e.rx.mgr) ELSE NoMgr,
+                  !.slots = IF Has(e, "rx") THEN e.rx.slots ELSE 0,
+                  !.lock = Has(e, "lock") /\ e.lock ]
+
+\* ------------------------------------------------------- memory projection
+CtxIdx(m, id) == {i \in 1..Len(m.ctxs) : m.ctxs[i].id = id}
+HasCtx(m, id) == CtxIdx(m, id) # {}
+CtxOf(m, id)  == m.ctxs[CHOOSE i \in CtxIdx(m, id) : TRUE]
+CountSeq(s, x) == Cardinality({i \in 1..Len(s) : s[i] = x})
+
+\* C08: every provisioned buffer is in exactly one place
+Conserved(m, prov, owned) ==
+  \A t \in prov :
+     CountSeq(m.free, t) + Cardinality({i \in 1..Len(m.ctxs) : m.ctxs[i].tag = t})
+       + (IF t \in owned THEN 1 ELSE 0) = 1
+
+\* buffers taken from / given to the memory during one call, from the memops log (C08 give-back)
+OpsTaken(ops) == {i \in 1..Len(ops) : ops[i].op \in {"new_pdu", "new_frag", "take_frag"} /\ ops[i].res = "ok"}
+OpsGiven(ops) == {i \in 1..Len(ops) : ops[i].op \in {"provision", "save_frag"} /\ ops[i].res = "ok"}
+GiveBackOk(ops, outTag) ==
+  Cardinality(OpsTaken(ops)) = Cardinality(OpsGiven(ops)) + (IF outTag > 0 THEN 1 ELSE 0)
+
+\* ------------------------------------------------------ sender bookkeeping
+\* After a successful sender event in a lock-step run: remember what was sent.
+RxAfterEncap(rx, e, txPre) ==
+  IF ~rx.lock \/ e.res.t \notin {"completed", "fragmented"} \/ Len(e.wire) < 2 THEN rx
+  ELSE LET kind == HdrDecode(U16(e.wire, 1)).kind
+           intended == IntendedLabel(txPre, e.label)
+           s == [pdu |-> e.pdu, intended |-> intended, ptype |-> e.ptype, exts |-> e.exts]
+       IN [rx EXCEPT !.pend = [valid |-> TRUE, wire |-> e.wire, kind |-> kind, id |-> e.fragid, pdu |-> e.pdu,
+                               intended |-> intended, ptype |-> e.ptype, exts |-> e.exts],
+                     !.sess = IF e.res.t = "fragmented" THEN (e.fragid :> s) @@ rx.sess ELSE rx.sess]
+
+RxAfterFrag(rx, e) ==
+  IF ~rx.lock \/ e.res.t \notin {"completed", "fragmented"} \/ Len(e.wire) < 2 THEN rx
+  ELSE [rx EXCEPT !.pend = [NoPend EXCEPT !.valid = TRUE, !.wire = e.wire,
+                                          !.kind = HdrDecode(U16(e.wire, 1)).kind, !.id = e.ctx.id]]
+
+\* ------------------------------------------------------------------ decap
+RxView(b, mgr) ==
+  With(Classify(b), LAMBDA c :
+    IF c = "delim"
+    THEN With(Delimited(b), LAMBDA p : [cls |-> c, p |-> p, w |-> Parse(p, mgr)])
+    ELSE [cls |-> c, p |-> <<>>, w |-> PBad(HdrDecode(0), c)])
+
+GhostOf(rx, id) == IF id \in DOMAIN rx.ghost THEN rx.ghost[id] ELSE NoGhost
+
+\* CRC needed by an end fragment: only when the ghost train has the announced length
+RxCrcFor(e, rx, tab) ==
+  LET b == e.bytes IN
+  IF Classify(b) # "delim" THEN [need |-> FALSE, key |-> <<>>, val |-> ZeroCrc, new |-> FALSE]
+  ELSE LET h == HdrDecode(U16(b, 1)) IN
+       IF h.kind # "end" \/ h.len < FragIdLen + CrcLen THEN [need |-> FALSE, key |-> <<>>, val |-> ZeroCrc, new |-> FALSE]
+       ELSE LET g == GhostOf(rx, b[3])
+                n == h.len - FragIdLen - CrcLen
+            IN  IF ~g.open \/ Len(g.arrived) + n + PtypeLen + Len(g.first.lb) # g.first.tl
+                THEN [need |-> FALSE, key |-> <<>>, val |-> ZeroCrc, new |-> FALSE]
+                ELSE [need |-> TRUE, key |-> <<>>, new |-> FALSE,
+                      val |-> CrcFields(tab, g.first.tl, g.first.ptype, g.first.lb,
+                                        g.arrived \o SubSeq(b, 4, 3 + n))]
+
+MaxArrived == 70000
+
+JudgeDecapQ(e, rx, q, crc) ==
+  LET b     == e.bytes
+      N     == Len(b)
+      r     == e.res
+      np    == r.t # "panic"
+      cons  == IF np THEN r.consumed ELSE 0
+      w     == q.w
+      p     == q.p
+      pl    == Len(p)
+      delim == q.cls = "delim"
+      wf    == delim /\ w.ok
+      pre   == rx.mem
+      post  == e.mem
+      probe == Has(e, "probe")
+      PP(ps) == IF probe THEN Append(ps, "C16") ELSE ps
+      id    == w.fragId
+      kind  == IF delim THEN w.kind ELSE "none"
+      isStart == kind \in {"complete", "first"}
+      hasMeta == r.t \in {"completed", "fragmented"}
+      zeroLab == isStart /\ w.lt = "six" /\ w.label = ZeroSix.b
+      wireLabel == [k |-> w.lt, b |-> w.label]
+      admFull == rx.adm \ {NoLabel}
+      resolvable   == w.lt # "ru" \/ (Cardinality(rx.adm) = 1 /\ admFull # {} /\ Broadcast \notin rx.adm)
+      unresolvable == w.lt = "ru" /\ (rx.adm \ {NoLabel, Broadcast}) = {}
+      labelOk == hasMeta /\ isStart =>
+                   IF w.lt # "ru" THEN r.meta.label = wireLabel ELSE r.meta.label \in admFull
+      freeAllFit == \A i \in 1..Len(pre.free) : pre.free[i] >= w.plen
+      hasCtx == pre.ok /\ delim /\ kind # "complete" /\ HasCtx(pre, id)
+      ctx    == IF hasCtx THEN CtxOf(pre, id) ELSE [tag |-> 0, pdu_len |-> 0, tl |-> 0, id |-> 0, h |-> 0]
+      g      == IF delim /\ kind # "complete" THEN GhostOf(rx, id) ELSE NoGhost
+      gAgree == g.open /\ hasCtx /\ ctx.pdu_len = Len(g.arrived) /\ ctx.tl = g.first.tl
+      \* ---- complete
+      cBufOk == pre.ok /\ Len(pre.free) > 0 /\ freeAllFit
+      cNoBuf == pre.ok /\ (Len(pre.free) = 0 \/ ~freeAllFit)
+      cMust  == wf /\ kind = "complete" /\ ~zeroLab /\ resolvable /\ cBufOk
+      \* ---- first
+      tlCons == w.tl >= w.plen + PtypeLen + LtLen(w.lt)
+      fBufOk == pre.ok /\ freeAllFit /\ (IF hasCtx THEN ctx.tag >= w.plen ELSE Len(pre.free) > 0)
+      fNoBuf == pre.ok /\ ~hasCtx /\ Len(pre.free) = 0
+      fMust  == wf /\ kind = "first" /\ ~zeroLab /\ resolvable /\ tlCons /\ fBufOk
+      \* ---- inter / end
+      fits    == hasCtx /\ ctx.pdu_len + w.plen <= ctx.tag
+      withinTl == gAgree /\ Len(g.arrived) + w.plen + PtypeLen + Len(g.first.lb) <= g.first.tl
+      iMust  == wf /\ kind = "inter" /\ gAgree /\ fits /\ withinTl
+      A      == IF wf /\ kind = "end" THEN g.arrived \o Payload(p, w) ELSE <<>>
+      verified == wf /\ kind = "end" /\ g.open /\ crc.need /\ crc.val = w.crc
+      eMust  == verified /\ gAgree /\ fits
+      unknownId == wf /\ kind \in {"inter", "end"} /\ pre.ok /\ ~hasCtx
+      \* ---- lock-step with the sender
+      isPend == rx.lock /\ rx.pend.valid /\ b = rx.pend.wire
+      sess   == IF isPend /\ rx.pend.id \in DOMAIN rx.sess THEN rx.sess[rx.pend.id] ELSE NoSess
+      \* ---- context of this id after the call
+      postHas == post.ok /\ delim /\ kind # "complete" /\ HasCtx(post, id)
+      pctx   == IF postHas THEN CtxOf(post, id) ELSE [tag |-> 0, pdu_len |-> 0, tl |-> 0, id |-> 0, h |-> 0]
+      \* ---- C07: contexts of other ids are untouched
+      others == IF pre.ok /\ post.ok
+                THEN {i \in 1..Len(pre.ctxs) : ~(delim /\ kind # "complete" /\ pre.ctxs[i].id = id)}
+                ELSE {}
+      vanished == {i \in others : ~(\E k \in 1..Len(post.ctxs) : post.ctxs[k] = pre.ctxs[i])}
+      claims(i) == wf /\ kind = "first" /\ r.t = "fragmented"
+                   /\ (rx.slots = 0 \/ pre.ctxs[i].id % rx.slots = id % rx.slots)
+      strayOk == \/ vanished = {}
+                 \/ Cardinality(vanished) = 1 /\ \A i \in vanished : claims(i)
+      outTag == IF np /\ Has(r, "out_tag") THEN r.out_tag ELSE 0
+      owned2 == IF outTag > 0 THEN rx.owned \cup {outTag} ELSE rx.owned
+      \* ------------------------------------------------------------ verdicts
+      verdicts ==
+           V(np, <<"C05">>, "Rx.NoPanic")
+        \cup V(np => cons <= N, <<"C05">>, "Rx.ConsumedWithinBuffer")
+        \cup V(np /\ N > 0 => cons >= MinI(2, N), <<"C05">>, "Rx.ConsumedProgress")
+        \cup V(np /\ N >= 2 /\ AllZero(b) => (r.t = "padding" /\ cons = N), <<"C10">>, "Rx.PaddingConsumesRest")
+        \cup V(np /\ r.t = "padding" => q.cls = "pad", <<"C10", "C14">>, "Rx.PaddingOnlyForPaddingHeader")
+        \cup V(hasMeta /\ delim => cons = pl, <<"C01", "C02", "C10">>, "Rx.OkConsumesPacket")
+        \cup V(hasMeta /\ delim => ((r.t = "completed") <=> (kind \in {"complete", "end"})), <<"C02", "C01">>, "Rx.StatusMatchesKind")
+        \cup V(hasMeta /\ delim /\ isStart => w.ok, <<"C13", "C05">>, "Rx.AcceptedStartIsWellFormed")
+        \cup V(delim /\ w.why = "unknown_mandatory" => (r.t = "err" /\ cons = pl), <<"C13", "C10">>, "Rx.UnknownMandatoryDropsWhole")
+        \cup V(labelOk, <<"C04">>, "Rx.ResolveNearest")
+        \* complete packets
+        \cup V(cMust => (r.t = "completed" \/ ~np), PP(<<"C01">>), "Rx.CompleteDeliver")
+        \cup V(wf /\ kind = "complete" /\ r.t = "completed" =>
+                  /\ r.pdu = Payload(p, w) /\ r.meta.pdu_len = w.plen
+                  /\ r.meta.ptype = w.ptype, PP(<<"C01">>), "Rx.CompleteContent")
+        \cup V(wf /\ isStart /\ hasMeta => r.meta.exts = w.exts, <<"C13">>, "Rx.ExtensionsReported")
+        \cup V(wf /\ kind = "complete" /\ r.t = "err" /\ (cNoBuf \/ unresolvable) => cons = pl, <<"C10">>, "Rx.RejectOwnLen.complete")
+        \* first fragments
+        \cup V(fMust => (r.t = "fragmented" \/ ~np), PP(<<"C02">>), "Rx.FirstAccept")
+        \cup V(wf /\ kind = "first" /\ r.t = "fragmented" => r.meta.ptype = w.ptype, PP(<<"C02">>), "Rx.FirstMeta")
+        \cup V(wf /\ kind = "first" /\ r.t = "fragmented" /\ post.ok =>
+                  (postHas /\ pctx.pdu_len = w.plen /\ pctx.tl = w.tl), <<"C07", "C02">>, "Rx.FirstOpensContext")
+        \cup V(wf /\ kind = "first" /\ r.t = "err" /\ (fNoBuf \/ unresolvable) => cons = pl, <<"C10">>, "Rx.RejectOwnLen.first")
+        \* intermediate fragments
+        \cup V(iMust => (r.t = "fragmented" \/ ~np), PP(<<"C02">>), "Rx.Append")
+        \cup V(wf /\ kind = "inter" /\ r.t = "fragmented" /\ g.open =>
+                  /\ r.meta.label = g.first.label /\ r.meta.ptype = g.first.ptype /\ r.meta.exts = g.first.exts,
+               PP(<<"C02">>), "Rx.InterMetaIsFirsts")
+        \cup V(wf /\ kind = "inter" /\ r.t = "fragmented" /\ hasCtx /\ post.ok =>
+                  (postHas /\ pctx.pdu_len = ctx.pdu_len + w.plen /\ pctx.tag = ctx.tag), <<"C07", "C02">>, "Rx.AppendAdvances")
+        \cup V(wf /\ kind = "inter" /\ hasMeta => hasCtx \/ ~pre.ok, <<"C07">>, "Rx.InterNeedsContext")
+        \* end fragments
+        \* any delivery that is not a well-formed complete packet must be a verified end fragment
+        \cup V(r.t = "completed" /\ ~(wf /\ kind = "complete") => (wf /\ kind = "end" /\ g.open /\ verified), <<"C03">>, "Rx.DeliverOnlyVerified")
+        \cup V(wf /\ kind = "end" /\ r.t = "completed" /\ g.open =>
+                  /\ r.pdu = A /\ r.meta.pdu_len = Len(A)
+                  /\ r.meta.label = g.first.label /\ r.meta.ptype = g.first.ptype /\ r.meta.exts = g.first.exts,
+               <<"C03">>, "Rx.DeliveredIsConcatenation")
+        \cup V(kind = "end" /\ r.t = "completed" => ~g.done, <<"C07", "C02">>, "Rx.ExactlyOnce")
+        \cup V(eMust => (r.t = "completed" \/ ~np), PP(<<"C02">>), "Rx.EndDelivers")
+        \cup V(wf /\ kind = "end" /\ r.t = "err" /\ gAgree /\ ~verified => cons = pl, <<"C10">>, "Rx.RejectOwnLen.badcrc")
+        \cup V(unknownId => (r.t = "err" /\ cons = pl), <<"C10", "C07">>, "Rx.UnknownIdRejectedOwnLen")
+        \* isolation, conservation
+        \cup V(strayOk, <<"C07">>, "Rx.OtherContextsUntouched")
+        \cup V(post.ok => Conserved(post, rx.prov, owned2), <<"C08">>, "Rx.Conservation")
+        \cup V(np => GiveBackOk(e.memops, outTag), <<"C08">>, "Rx.GiveBack")
+        \* lock-step attribution and round trip
+        \cup V(isPend /\ hasMeta /\ rx.pend.kind \in {"complete", "first"} => r.meta.label = rx.pend.intended, <<"C04">>, "Rx.Attribution")
+        \cup V(isPend /\ hasMeta /\ rx.pend.kind \in {"inter", "end"} => r.meta.label = sess.intended, <<"C04">>, "Rx.Attribution.frag")
+        \cup V(isPend /\ r.t = "completed" /\ rx.pend.kind = "complete" =>
+                  /\ r.pdu = PduBytes(rx.pend.pdu) /\ r.meta.ptype = rx.pend.ptype /\ r.meta.exts = rx.pend.exts,
+               <<"C01", "C13">>, "Rx.RoundTrip.complete")
+        \cup V(isPend /\ r.t = "completed" /\ rx.pend.kind = "end" =>
+                  /\ r.pdu = PduBytes(sess.pdu) /\ r.meta.ptype = sess.ptype /\ r.meta.exts = sess.exts,
+               <<"C02", "C13">>, "Rx.RoundTrip.fragmented")
+      hs ==   H(TRUE, "Rx.NoPanic") \cup H(np, "Rx.ConsumedWithinBuffer") \cup H(np /\ N > 0, "Rx.ConsumedProgress")
+         \cup H(np /\ N >= 2 /\ AllZero(b), "Rx.PaddingConsumesRest") \cup H(np /\ r.t = "padding", "Rx.PaddingOnlyForPaddingHeader")
+         \cup H(hasMeta /\ delim, "Rx.OkConsumesPacket")
+         \cup H(hasMeta /\ delim, "Rx.StatusMatchesKind") \cup H(hasMeta /\ delim /\ isStart, "Rx.AcceptedStartIsWellFormed")
+         \cup H(delim /\ w.why = "unknown_mandatory", "Rx.UnknownMandatoryDropsWhole")
+         \cup H(hasMeta /\ isStart /\ w.lt = "ru", "Rx.ResolveNearest")
+         \cup H(cMust, "Rx.CompleteDeliver") \cup H(wf /\ kind = "complete" /\ r.t = "completed", "Rx.CompleteContent")
+         \cup H(wf /\ isStart /\ hasMeta /\ Len(w.exts) > 0, "Rx.ExtensionsReported")
+         \cup H(wf /\ kind = "complete" /\ r.t = "err" /\ (cNoBuf \/ unresolvable), "Rx.RejectOwnLen.complete")
+         \cup H(fMust, "Rx.FirstAccept") \cup H(wf /\ kind = "first" /\ r.t = "fragmented", "Rx.FirstMeta")
+         \cup H(wf /\ kind = "first" /\ r.t = "fragmented" /\ post.ok, "Rx.FirstOpensContext")
+         \cup H(wf /\ kind = "first" /\ r.t = "err" /\ (fNoBuf \/ unresolvable), "Rx.RejectOwnLen.first")
+         \cup H(iMust, "Rx.Append") \cup H(wf /\ kind = "inter" /\ r.t = "fragmented" /\ g.open, "Rx.InterMetaIsFirsts")
+         \cup H(wf /\ kind = "inter" /\ r.t = "fragmented" /\ hasCtx /\ post.ok, "Rx.AppendAdvances")
+         \cup H(wf /\ kind = "inter" /\ hasMeta, "Rx.InterNeedsContext")
+         \cup H(r.t = "completed" /\ ~(wf /\ kind = "complete"), "Rx.DeliverOnlyVerified")
+         \cup H(wf /\ kind = "end" /\ r.t = "completed" /\ g.open, "Rx.DeliveredIsConcatenation")
+         \cup H(wf /\ kind = "end" /\ g.open /\ ~verified, "Rx.EndNotVerified")
+         \cup H(kind = "end" /\ r.t = "completed", "Rx.ExactlyOnce") \cup H(eMust, "Rx.EndDelivers")
+         \cup H(wf /\ kind = "end" /\ r.t = "err" /\ gAgree /\ ~verified, "Rx.RejectOwnLen.badcrc")
+         \cup H(unknownId, "Rx.UnknownIdRejectedOwnLen")
+         \cup H(pre.ok /\ post.ok /\ others # {}, "Rx.OtherContextsUntouched")
+         \cup H(post.ok /\ rx.prov # {}, "Rx.Conservation") \cup H(np /\ Len(e.memops) > 0, "Rx.GiveBack")
+         \cup H(isPend /\ hasMeta /\ rx.pend.kind \in {"complete", "first"}, "Rx.Attribution")
+         \cup H(isPend /\ hasMeta /\ rx.pend.kind \in {"inter", "end"}, "Rx.Attribution.frag")
+         \cup H(isPend /\ r.t = "completed" /\ rx.pend.kind = "complete", "Rx.RoundTrip.complete")
+         \cup H(isPend /\ r.t = "completed" /\ rx.pend.kind = "end", "Rx.RoundTrip.fragmented")
+         \cup H(probe, "Rx.Probe")
+      \* ------------------------------------------------------ state update
+      adm2 ==
+        IF isStart /\ hasMeta THEN
+             (IF w.lt = "bc" THEN {NoLabel, Broadcast}
+              ELSE IF w.lt = "ru" THEN {r.meta.label}
+              ELSE {wireLabel})
+        ELSE IF isStart /\ pl >= (IF kind = "first" THEN 7 ELSE 4) + LtLen(w.lt) THEN
+             \* rejected start/complete packet whose label field is readable
+             (IF w.lt = "ru" THEN rx.adm \cup {NoLabel}
+              ELSE IF w.lt = "bc" THEN {NoLabel, Broadcast}
+              ELSE IF w.ok THEN {NoLabel, wireLabel}
+              ELSE rx.adm \cup {NoLabel, [k |-> w.lt, b |-> SubSeq(p, IF kind = "first" THEN 8 ELSE 5, (IF kind = "first" THEN 7 ELSE 4) + LtLen(w.lt))]})
+        ELSE rx.adm \cup {NoLabel}
+      newGhost ==
+        IF wf /\ kind = "first" /\ r.t = "fragmented"
+        THEN (id :> [open |-> TRUE, done |-> FALSE, arrived |-> Payload(p, w),
+                     first |-> [label |-> r.meta.label, lt |-> w.lt, lb |-> w.label, ptype |-> w.ptype,
+                                tl |-> w.tl, exts |-> w.exts]]) @@ rx.ghost
+        ELSE IF delim /\ kind = "first" /\ r.t = "fragmented"
+        THEN (id :> NoGhost) @@ rx.ghost       \* accepted a malformed first fragment: nothing can be verified from it
+        ELSE IF wf /\ kind \in {"inter", "end"} /\ g.open
+        THEN (id :> [g EXCEPT !.arrived = IF Len(g.arrived) + w.plen > MaxArrived THEN g.arrived ELSE g.arrived \o Payload(p, w),
+                              !.open = ~(kind = "end" /\ r.t = "completed"),
+                              !.done = (kind = "end" /\ r.t = "completed")]) @@ rx.ghost
+        ELSE rx.ghost
+      rx2 == [rx EXCEPT !.adm = adm2, !.mem = post, !.owned = owned2, !.ghost = newGhost,
+                        !.lock = rx.lock /\ isPend, !.pend = NoPend]
+  IN  [ bad |-> verdicts, hits |-> hs, rx |-> rx2,
+        cls |-> <<"decap", q.cls, kind, IF delim THEN w.why ELSE "-", IF delim THEN w.lt ELSE "-",
+                  IF r.t = "err" THEN r.e ELSE r.t, SizeClass(N), hasCtx, g.open, Len(pre.free) > 0>> ]
+
+JudgeDecap(e, rx, crc) == With(RxView(e.bytes, rx.mgr), LAMBDA q : JudgeDecapQ(e, rx, q, crc))
+
+\* ------------------------------------------------------------------- peek
+\* C19 (for packets produced by the encapsulator: flag enc) and C05 (totality)
+JudgePeek(e, rx) ==
+  LET b == e.bytes
+      r == e.res
+      c == Classify(b)
+      enc == Has(e, "enc") /\ e.enc
+      hOk == c = "delim"
+      h == IF hOk THEN HdrDecode(U16(b, 1)) ELSE HdrDecode(0)
+      ll == LtLen(h.lt)
+      base == IF h.kind = "first" THEN 8 ELSE 5
+      fieldsFit == hOk /\ (IF h.kind \in {"inter", "end"} THEN h.len >= 1 ELSE h.len >= base - 3 + ll)
+      expect == IF h.kind \in {"inter", "end"} THEN [t |-> "fragid", id |-> b[3]]
+                ELSE IF h.lt = "ru" THEN [t |-> "err", e |-> "ErrLabelReuse"]
+                ELSE [t |-> "label", label |-> [k |-> h.lt, b |-> SubSeq(b, base, base + ll - 1)]]
+  IN  [ bad |-> V(r.t # "panic", <<"C05">>, "Peek.NoPanic")
+             \cup V(enc /\ fieldsFit => r = expect, <<"C19">>, "Peek.AgreesWithPacket"),
+        hits |-> H(TRUE, "Peek.NoPanic") \cup H(enc /\ fieldsFit, "Peek.AgreesWithPacket"),
+        rx |-> rx,
+        cls |-> <<"peek", c, h.kind, h.lt, r.t, Len(b) > (IF hOk THEN h.len + 2 ELSE 0)>> ]
+
+\* -------------------------------------------------------------- provision
+JudgeProvision(e, rx) ==
+  LET t == e.tag
+      ok == e.res = "ok"
+      prov2 == rx.prov \cup {t}
+      owned2 == IF ok THEN rx.owned \ {t}
+                ELSE IF e.back = t THEN rx.owned \cup {t}
+                ELSE rx.owned \ {t}           \* not handed back: the conservation check will miss it
+      post == e.mem
+  IN  [ bad |-> V(e.res # "panic", <<"C05", "C08">>, "Prov.NoPanic")
+             \cup V(~ok /\ e.res # "panic" => e.back = t, <<"C08", "C17">>, "Prov.FailureHandsBufferBack")
+             \cup V(post.ok => Conserved(post, prov2, owned2), <<"C08">>, "Prov.Conservation"),
+        hits |-> H(TRUE, "Prov.NoPanic") \cup H(~ok, "Prov.FailureHandsBufferBack") \cup H(post.ok, "Prov.Conservation"),
+        rx |-> [rx EXCEPT !.prov = prov2, !.owned = owned2, !.mem = post],
+        cls |-> <<"provision", e.res>> ]
+
+JudgeDrain(e, rx) ==
+  [ bad |-> V(e.mem.ok => Conserved(e.mem, rx.prov, rx.owned), <<"C08">>, "Drain.Conservation"),
+    hits |-> H(e.mem.ok /\ rx.prov # {}, "Drain.Conservation"),
+    rx |-> rx, cls |-> <<"drain">> ]
+
+\* --------------------------------------------------------------- dispatch
+RxStep(e, rx, tx, crc) ==
+  CASE e.ev = "decap"     -> JudgeDecap(e, rx, crc)
+    [] e.ev = "peek"      -> JudgePeek(e, rx)
+    [] e.ev = "provision" -> JudgeProvision(e, rx)
+    [] e.ev = "drain"     -> JudgeDrain(e, rx)
+    [] e.ev = "rx_reset"  -> [bad |-> {}, hits |-> {}, cls |-> <<"rx_reset">>, rx |-> [rx EXCEPT !.adm = {NoLabel}]]
+    [] OTHER              -> [bad |-> {}, hits |-> {}, cls |-> <<"other", e.ev>>, rx |-> rx]
 =============================================================================
